@@ -6,7 +6,12 @@ case = (src, stages, action)
   stages = [(kind, code, flag), ...]   kind: 0 map, 1 filter, 2 flatMap, 3 sample, 4 persist, 5 mapPartitions[WithIndex]
                                        with a list-returning function (eager), 6 mapPartitionsWithIndex with a generator
                                        function that yields the sum, 7 cache()
-  action = (acode, a1, a2, a3)   see ACTIONS
+  action = (acode, a1, a2, a3)   see ACTIONS; (13, [action, ...], 0, 0) = a HISTORY: the actions run one after the
+                                 other on the SAME dataset object (lineage without persist/cache); log and result
+                                 become lists with one entry per action
+  sample stages: flag 0/1 = sampler replaced by the logged multiplicity function MFN[code] (without/with replacement);
+                 flag >= 2 = the REAL sampler of sample(withReplacement=(flag-2)%2, fraction=FRACS[(flag-2)//2]) at a
+                 boundary fraction where its outcome is certain (code = that multiplicity, 0 or 1), wrapped for logging
 
 Elements are ints or one of the falsy / sentinel-like values None, '', False, (), [] ("specials").  In cases, logs
 and results a special is written as an int code > 100000 (NONE, STR, FALSE, TUP, LST below); the implementation
@@ -45,14 +50,20 @@ RULE = ('cases (source, pipeline, action): source = parallelize(xs, n) with len 
         'a whole partition / every head / everywhere / in the data x 5 pipeline shapes x all admissible actions (sampled in '
         'the quick tier, every one-stage isEmpty/first case kept); exhaustive block: length <= 4, <= 3 slices, depth <= 2 over '
         'one representative per stage kind (sampled in the quick tier; the thorough tier adds all depth-3 pipelines over the '
-        'representatives on two multi-partition sources); non-trivial = at least one logged user-function call and >= 1 '
+        'representatives on two multi-partition sources); None-position block: a None (in the data or produced by map / '
+        'flatMap) at the head / middle / tail of every partition, driven by slice counts 1..6, for every admissible single-pass '
+        'action incl. reduce with every reducer; drop-all block: the REAL samplers at boundary fractions (0.0, 1e-300, -1.0 '
+        'with and without replacement; 1.0 Bernoulli), filter(False), flatMap([]) below instrumented stages for every '
+        'single-pass action; histories: 2-3 actions in sequence on ONE dataset object of an uncached lineage (same action '
+        'twice, two members of the stats family, an action after take/first/isEmpty), every per-action log judged; non-trivial = at least one logged user-function call and >= 1 '
         'pipeline stage; distinct by canonical JSON')
 ASSUMPTIONS = [
     'local execution (default DummyPool): partitions are evaluated one after the other by the driver',
     'user functions do not raise (no retries) and are observed through wrappers that log (stage, partition, call index, value)',
     'the sampler of sample() is replaced by a logged deterministic multiplicity function of the element (the random draw '
     'itself is C16); the generator in PartitionwiseSampledRDD.compute is the real one',
-    'one action per freshly built lineage on a fresh Context (caches are empty: "uncached lineage")',
+    'one action per freshly built lineage on a fresh Context (caches are empty: "uncached lineage"); histories (several '
+    'actions on one dataset object) only on lineages without persist/cache',
     'integer element values stay below 100000 (codes above denote the special values); sum-like partition functions '
     'are only applied to ints; reduce is not run on outputs containing None / False',
     'parallelize slicing is modelled locally (sizes (i+1)L/n - iL/n, remainder to the last slice); C07 owns that contract',
@@ -65,9 +76,13 @@ KIND_NAMES = ['map', 'filter', 'flatMap', 'sample', 'persist', 'mapPartitions', 
 ELEMENTWISE = (MAP, FILTER, FLATMAP, SAMPLE)
 
 A_COLLECT, A_COUNT, A_SUM, A_REDUCE, A_FOLD, A_AGGREGATE, A_FOREACH, A_COUNTBYVALUE, A_STATS, A_SAVE, \
-    A_TAKE, A_FIRST, A_ISEMPTY = range(13)
+    A_TAKE, A_FIRST, A_ISEMPTY, A_HISTORY = range(14)
 ACTIONS = ['collect', 'count', 'sum', 'reduce', 'fold', 'aggregate', 'foreach', 'countByValue', 'stats',
-           'saveAsTextFile', 'take', 'first', 'isEmpty']
+           'saveAsTextFile', 'take', 'first', 'isEmpty', 'history']
+# the stats family: (A_STATS, member, 0, 0); every member is one pass through stats()
+STATS_FAMILY = ['stats', 'mean', 'max', 'min', 'stdev', 'variance', 'sampleStdev', 'sampleVariance']
+# boundary fractions at which the real samplers are deterministic: never / always (Bernoulli) / never / never
+FRACS = [0.0, 1.0, 1e-300, -1.0]
 SINGLE_PASS = range(10)
 
 # ---- element domain: ints and the falsy / sentinel-like "specials", written as codes -------------------------------
@@ -167,7 +182,9 @@ def lift2(f):
     return lambda a, b: b if sp(a) or sp(b) else f(a, b)
 
 
-OP = [lift2(lambda a, b: a + b), lift2(max), lift2(lambda a, b: a - b), lambda a, b: b]
+OP = [lift2(lambda a, b: a + b), lift2(max), lift2(lambda a, b: a - b), lambda a, b: b,
+      lambda a, b: b if sp(a) else a,                             # 4: first non-null
+      lambda a, b: ((a % 1009) * 3 + b % 1009) % 1009]            # 5: order-sensitive digest of everything seen
 NLIB = {MAP: len(FN), FILTER: len(PRED), FLATMAP: len(GFN), SAMPLE: len(MFN), EAGER: len(HFN)}
 
 
@@ -241,6 +258,16 @@ def define_stage(R, rdd, s, k, c, flag):
         return rdd.flatMap(w)
     if k == SAMPLE:
         f = MFN[c]
+        if flag >= 2:
+            # the real sampler at a boundary fraction, wrapped for logging (an RDD without a sampler logs nothing)
+            r = rdd.sample(bool((flag - 2) % 2), FRACS[(flag - 2) // 2], seed=7)
+            orig = getattr(r, 'sampler', None)
+            if orig is not None:
+                def wr(x, rng=None, numpy_rng=None):
+                    R.rec(s, R.pid(x), x)
+                    return orig(x, rng, numpy_rng)
+                r.sampler = wr
+            return r
 
         def w(x, rng=None, numpy_rng=None):
             R.rec(s, R.pid(x), x)
@@ -325,9 +352,12 @@ def run_action(R, rdd, sa, action):
         return rdd.foreach(w)
     if a == A_COUNTBYVALUE:
         d = rdd.countByValue()
-        return sorted((int(k), int(v)) for k, v in d.items())
+        return sorted((enc(k), int(v)) for k, v in d.items())
     if a == A_STATS:
-        return int(rdd.stats().count())
+        if a1 == 0:
+            return int(rdd.stats().count())
+        getattr(rdd, STATS_FAMILY[a1])()       # the value is C17's business
+        return True
     if a == A_SAVE:
         base = os.path.join(os.environ.get('VERIF_ROOT', '/verif'), '.work')
         os.makedirs(base, exist_ok=True)
@@ -344,7 +374,8 @@ def run_action(R, rdd, sa, action):
             else:
                 with open(path) as f:
                     lines = f.read().split('\n')[:-1]
-            return [int(l) for l in lines]
+            text = {'None': NONE, '': STR, 'False': FALSE, '()': TUP, '[]': LST}
+            return [text[l] if l in text else int(l) for l in lines]
         finally:
             shutil.rmtree(d, ignore_errors=True)
     if a == A_TAKE:
@@ -369,11 +400,27 @@ def impl(case):
     R = Rec()
     ctx = pysparkling.Context()
     rdd, ndef = build(R, ctx, src, stages)
+    sa = len(stages) + 1
+    if action[0] != A_HISTORY:
+        return (ndef, _run_logged(R, rdd, sa, action), _LAST[0], parts)
+    logs, results = [], []
+    for act in action[1]:          # the same dataset object, one action after the other
+        logs.append(_run_logged(R, rdd, sa, act))
+        results.append(_LAST[0])
+    return (ndef, logs, results, parts)
+
+
+_LAST = [None]
+
+
+def _run_logged(R, rdd, sa, action):
+    """run one action with a fresh log and fresh call counters; returns its log (the result goes to _LAST)"""
+    R.log, R.cnt = [], {}
     try:
-        res = run_action(R, rdd, len(stages) + 1, action)
+        _LAST[0] = run_action(R, rdd, sa, tuple(action))
     except Exception as e:  # pylint: disable=broad-except
-        res = Err(type(e).__name__)
-    return (ndef, list(R.log), res, parts)
+        _LAST[0] = Err(type(e).__name__)
+    return list(R.log)
 
 
 # ---- oracle: the statement of C06 evaluated on the recorded log alone -----------------------------------------
@@ -410,12 +457,25 @@ def oracle(case, result):
     if isinstance(result, Err):
         return None
     ndef, log, res, parts = result
-    aname = ACTIONS[action[0]]
     if any(ndef):
         step = next(i for i, c in enumerate(ndef) if c)
         what = KIND_NAMES[stages[step - 1][0]] if step else 'source'
-        return (f'define:{what}:user-function-called',
-                f'{ndef[step]} calls logged while defining step {step} ({what}): {log[:3]}')
+        return (f'define:{what}:user-function-called', f'{ndef[step]} calls logged while defining step {step} ({what})')
+    if action[0] != A_HISTORY:
+        return judge(stages, parts, action, log, res)
+    # a history on an uncached lineage: every action is judged on its own log -- exactly once, again
+    prev = 'define'
+    for act, l, r in zip(action[1], log, res):
+        o = judge(stages, parts, tuple(act), l, r)
+        if o is not None:
+            return (f'after-{prev}:{o[0]}', f'history {[ACTIONS[a[0]] for a in action[1]]}: {o[1]}')
+        prev = ACTIONS[act[0]]
+    return None
+
+
+def judge(stages, parts, action, log, res):
+    """the clauses of C06 for ONE action, given the calls logged while it ran"""
+    aname = ACTIONS[action[0]]
     inputs = stage_inputs(parts, stages)
     nst = len(stages)
     if action[0] in SINGLE_PASS:
@@ -495,6 +555,8 @@ def nontrivial(case, result):
 
 
 def kind(case):
+    if case[2][0] == A_HISTORY:
+        return f'history{len(case[2][1])}/d{len(case[1])}'
     return f'{ACTIONS[case[2][0]]}/d{len(case[1])}'
 
 
@@ -518,6 +580,8 @@ def rand_stage(rng):
     flag = rng.randrange(2) if k in (FLATMAP, SAMPLE, EAGER, FILTER) else 0
     if k == EAGER and c == 4:
         flag = 1    # [sum(xs)] of an empty partition has no element to take the partition tag from
+    if k == SAMPLE and rng.random() < 0.35:
+        return rng.choice(DROPPERS[:6] + [KEEP_ALL])    # the real sampler at a boundary fraction
     return (k, c, flag)
 
 
@@ -581,28 +645,79 @@ def _par(xs, n):
     return out
 
 
-def actions_for(rng, src, stages, all_single=True, all_take=True):
-    outs = out_values(src, stages)
-    special = any(sp(x) for x in outs)
-    untaggable = any(x in UNTAGGABLE for x in outs)
+def single_actions(rng, src, stages, every_reducer=False):
+    """the single-pass actions that the output values of this pipeline admit"""
+    outs_pp = stage_inputs(src_parts(src), stages)[-1]
+    outs = [x for xs in outs_pp for x in xs]
+    special = {x for x in outs if sp(x)}
     singles = [(A_COLLECT, 0, 0, 0), (A_COUNT, 0, 0, 0),
                (A_FOLD, rng.choice([0, 1, -2]), rng.randrange(len(OP)), 0),
                (A_AGGREGATE, rng.choice([0, 3]), rng.randrange(len(OP)), rng.randrange(len(OP))),
-               (A_FOREACH, 0, 0, 0)]
-    if not untaggable:
-        # reduce hands a one-element partition's element to the combine step: an untagged None could not be attributed
-        singles.append((A_REDUCE, rng.randrange(len(OP)), 0, 0))
+               (A_FOREACH, 0, 0, 0), (A_SAVE, 0, 0, 0)]
+    if not any(len(xs) == 1 and xs[0] in UNTAGGABLE for xs in outs_pp):
+        # a one-element partition hands its element itself to the combine step, which runs after the last partition:
+        # an untagged None / False could not be attributed there; everywhere else in a partition it can
+        ops = range(len(OP)) if every_reducer else [rng.randrange(len(OP))]
+        singles.extend((A_REDUCE, o, 0, 0) for o in ops)
+    if special <= {NONE, STR, TUP}:
+        singles.append((A_COUNTBYVALUE, 0, 0, 0))       # hashable, and no False that would collide with 0
     if not special:
-        # numeric / hashable / printable-as-int outputs only
-        singles.extend([(A_SUM, 0, 0, 0), (A_COUNTBYVALUE, 0, 0, 0), (A_STATS, 0, 0, 0)])
+        singles.extend([(A_SUM, 0, 0, 0), (A_STATS, rng.randrange(len(STATS_FAMILY)), 0, 0)])
+    return singles
+
+
+def actions_for(rng, src, stages, all_single=True, all_take=True, save=False):
+    singles = [a for a in single_actions(rng, src, stages) if save or a[0] != A_SAVE]
     acts = list(singles) if all_single else rng.sample(singles, 2)
-    ns = list(range(0, len(outs) + 2))
+    n_out = out_len(src, stages)
+    ns = list(range(0, n_out + 2))
     if not all_take and len(ns) > 3:
         ns = sorted(rng.sample(ns, 3))
     acts.extend((A_TAKE, n, 0, 0) for n in ns)
     acts.append((A_FIRST, 0, 0, 0))
     acts.append((A_ISEMPTY, 0, 0, 0))
     return acts
+
+
+def uncached(stages):
+    return all(k not in (PERSIST, CACHE) for k, _c, _f in stages)
+
+
+def histories_for(rng, src, stages, count):
+    """sequences of actions on ONE dataset object: the same action twice, two members of one family, an action after
+    take / first / isEmpty, three in a row"""
+    singles = [a for a in single_actions(rng, src, stages) if a[0] != A_SAVE]
+    family = [(A_STATS, m, 0, 0) for m in range(len(STATS_FAMILY))] if any(a[0] == A_STATS for a in singles) else []
+    n_out = out_len(src, stages)
+    partial = [(A_TAKE, rng.randint(0, n_out + 1), 0, 0), (A_FIRST, 0, 0, 0), (A_ISEMPTY, 0, 0, 0)]
+    out = []
+    for _ in range(count):
+        r = rng.random()
+        if r < 0.3:
+            a = rng.choice(singles)
+            h = [a, a]
+        elif r < 0.5 and family:
+            h = [rng.choice(family), rng.choice(family)]
+        elif r < 0.7:
+            h = [rng.choice(partial), rng.choice(singles)]
+        elif r < 0.85:
+            h = [rng.choice(singles), rng.choice(partial), rng.choice(singles)]
+        else:
+            h = [rng.choice(singles + partial) for _ in range(3)]
+        out.append((A_HISTORY, [tuple(a) for a in h], 0, 0))
+    return out
+
+
+# stages that let nothing through: every stage above them must still be evaluated once per element
+DROPPERS = [(SAMPLE, 0, 2), (SAMPLE, 0, 3), (SAMPLE, 0, 6), (SAMPLE, 0, 7), (SAMPLE, 0, 8), (SAMPLE, 0, 9),
+            (SAMPLE, 0, 0), (SAMPLE, 0, 1), (FILTER, 3, 0), (FILTER, 3, 1), (FLATMAP, 2, 0), (FLATMAP, 2, 1)]
+KEEP_ALL = (SAMPLE, 1, 4)          # the real Bernoulli sampler with fraction 1.0
+UPSTREAMS = [[(MAP, 0, 0)], [(FILTER, 0, 0)], [(FLATMAP, 0, 0)], [(SAMPLE, 2, 0)], [(MAP, 5, 0)],
+             [(MAP, 0, 0), (FLATMAP, 4, 0)], [(EAGER, 1, 1)], []]
+# a None at the head / in the middle / at the tail of partitions: the position is driven by the slice count
+NONE_DATA = [[NONE, 1, 2, 3, 4, 5], [1, NONE, 2, NONE, 3, NONE], [1, 2, NONE, 3, 4, NONE], [0, 1, 2, 0, 4, 5, 0, 7],
+             [5, 4, 0, 0, 1, 0], [NONE, NONE, 1, 2]]
+NONE_PIPES = [[], [(MAP, 5, 0)], [(MAP, 0, 0), (MAP, 5, 0)], [(FLATMAP, 6, 0)], [(MAP, 5, 0), (MAP, 0, 0)], [(FLATMAP, 5, 0)]]
 
 
 def generate(rng, tier):
@@ -631,8 +746,55 @@ def generate(rng, tier):
                     sent.append((src, pipe, act))
     if quick:
         keep = [c for c in sent if c[2][0] in (A_ISEMPTY, A_FIRST) and len(c[1]) == 1]
-        sent = keep + rng.sample(sent, 900)
+        sent = keep + rng.sample(sent, 700)
     cases.extend(sent)
+    # a None (in the data or produced by a function) at every position of every partition, for EVERY admissible
+    # single-pass action incl. reduce with every reducer, and take / first / isEmpty
+    pos = []
+    for xs in NONE_DATA:
+        for n in range(1, 7):
+            for pipe in NONE_PIPES:
+                src = (0, xs, n)
+                if out_len(src, pipe) > 40:
+                    continue
+                for act in single_actions(rng, src, pipe, every_reducer=True):
+                    if act[0] != A_SAVE or rng.random() < 0.1:
+                        pos.append((src, list(pipe), act))
+                pos.append((src, list(pipe), (A_TAKE, rng.randint(0, out_len(src, pipe) + 1), 0, 0)))
+                pos.append((src, list(pipe), (A_ISEMPTY, 0, 0, 0)))
+    if quick:
+        keep = [c for c in pos if c[2][0] == A_REDUCE and c[2][1] in (3, 5) and len(c[1]) <= 1]
+        pos = keep + rng.sample(pos, 500)
+    cases.extend(pos)
+    # stages that drop everything (sample at its boundary fractions with the real samplers, filter(False), flatMap([]))
+    # below instrumented stages: the stages above must be evaluated once per element by every single-pass action
+    drop = []
+    for src in [(0, [3, 0, 4, 2], 2), (0, [1, 2, 3, 4, 5], 3), (1, [[], [0, 7], [2]], 0)]:
+        for up in UPSTREAMS:
+            for d in DROPPERS + [KEEP_ALL]:
+                for down in ([], [(MAP, 0, 0)]):
+                    pipe = fix_stages(src, list(up) + [d] + down)
+                    for act in single_actions(rng, src, pipe) + [(A_TAKE, 1, 0, 0), (A_FIRST, 0, 0, 0), (A_ISEMPTY, 0, 0, 0)]:
+                        if act[0] != A_SAVE or rng.random() < 0.1:
+                            drop.append((src, pipe, act))
+    if quick:
+        keep = [c for c in drop if c[2][0] == A_COLLECT and c[0][0] == 0 and c[0][2] == 2 and len(c[1]) == 2]
+        drop = keep + rng.sample(drop, 500)
+    cases.extend(drop)
+    # histories: several actions on ONE dataset object (uncached lineages)
+    n_hist = 300 if quick else 6000
+    while n_hist > 0:
+        src = rand_src(rng, 6)
+        st = fix_stages(src, [rand_stage(rng) for _ in range(rng.choice([0, 1, 1, 2, 3]))])
+        if not uncached(st) or out_len(src, st) > 30:
+            continue
+        for h in histories_for(rng, src, st, 3):
+            cases.append((src, st, h))
+            n_hist -= 1
+    for src, st in [((0, [1, 2, 3, 4], 2), [(MAP, 0, 0)]), ((0, [5, 1], 2), []), ((1, [[2], [], [7, 8]], 0), [(FILTER, 1, 0)])]:
+        for m1 in range(len(STATS_FAMILY)):
+            for m2 in ([0, (m1 + 1) % len(STATS_FAMILY)] if quick else range(len(STATS_FAMILY))):
+                cases.append((src, st, (A_HISTORY, [(A_STATS, m1, 0, 0), (A_STATS, m2, 0, 0)], 0, 0)))
     # exhaustive small scope: length <= 4, <= 3 slices, depth <= 2 over one representative per stage kind
     pipes = [[]] + [[a] for a in REPR] + [[a, b] for a in REPR for b in REPR]
     small = []
@@ -647,7 +809,7 @@ def generate(rng, tier):
                 for act in actions_for(rng, src, st):
                     small.append((src, list(st), act))
     if quick:
-        small = rng.sample(small, 1400)
+        small = rng.sample(small, 1100)
     else:
         # thorough: depth 3 over the representatives on the multi-partition sources
         for a in REPR:
@@ -662,16 +824,12 @@ def generate(rng, tier):
                             small.append((src, st, act))
     cases.extend(small)
     # saveAsTextFile (touches the file system: fewer)
-    n_save = 25 if quick else 300
-    while n_save > 0:
+    for _ in range(25 if quick else 300):
         src = rand_src(rng, 6)
         st = fix_stages(src, [rand_stage(rng) for _ in range(rng.randint(0, 3))])
-        if any(sp(x) for x in out_values(src, st)):
-            continue
         cases.append((src, st, (A_SAVE, 0, 0, 0)))
-        n_save -= 1
     # random deeper pipelines, irregular partitionings, all take(n)
-    budget = 1600 if quick else 36000
+    budget = 1300 if quick else 36000
     while budget > 0:
         src = rand_src(rng)
         st = fix_stages(src, [rand_stage(rng) for _ in range(rng.choice([1, 2, 2, 3, 3, 4]))])
@@ -701,7 +859,10 @@ def load_corpus():
 
 def _norm(c):
     src, stages, action = c
-    return (tuple(src), [tuple(s) for s in stages], tuple(action))
+    action = tuple(action)
+    if action[0] == A_HISTORY:
+        action = (A_HISTORY, [tuple(a) for a in action[1]], 0, 0)
+    return (tuple(src), [tuple(s) for s in stages], action)
 
 
 def shrink_candidates(case):
@@ -723,3 +884,8 @@ def shrink_candidates(case):
                 yield ((1, parts[:i] + [parts[i][:j] + parts[i][j + 1:]] + parts[i + 1:], 0), stages, action)
     if action[0] == A_TAKE and action[1] > 0:
         yield (src, stages, (A_TAKE, action[1] - 1, 0, 0))
+    if action[0] == A_HISTORY:
+        acts = action[1]
+        for i in range(len(acts)):
+            if len(acts) > 1:
+                yield (src, stages, (A_HISTORY, acts[:i] + acts[i + 1:], 0, 0))
